@@ -134,6 +134,64 @@ func scenarios() []e3.Scenario {
 			},
 		})
 	}
+	// A reply-expected send racing the peer's Deselect.req: whichever side of the write boundary
+	// the send falls on — written and waiting, or refused as not selected — the gauge is 0 again
+	// once every call has returned, and the refusal is exactly one drop.
+	{
+		var sendErr error
+		var minGauge int64
+		var sawData bool
+		out = append(out, e3.Scenario{
+			Name: "send-w-vs-deselect", Horizon: 20 * time.Second,
+			Setup: func(e *e3.Env) {
+				sendErr, minGauge, sawData = nil, 0, false
+				o := e2.Opts{Active: false, Conn: []hsms.ConnOption{
+					hsms.WithT3(3 * time.Second), hsms.WithT5(time.Second), hsms.WithT6(2 * time.Second), hsms.WithT7(30 * time.Second), hsms.WithT8(time.Second),
+					hsms.WithWriteTimeout(time.Second), hsms.WithCloseTimeout(5 * time.Second),
+				}}
+				e.W.NewConn(o)
+				if err := e.W.Establish(o); err != nil {
+					panic(err)
+				}
+				pc := e.W.Peer
+				e.Thread("sender", func() {
+					_, sendErr = e.W.C.SendDataMessage(context.Background(), 1, 1, true, secs2.A("x"))
+				})
+				e.Thread("peer", func() {
+					_, _ = pc.Write(peer.Ctrl(peer.SDeselectReq, 0xFFFF, 0, 0, 0x0D5E).Bytes())
+					_ = pc.SetReadDeadline(time.Now().Add(10 * time.Second))
+					if f, ok := readData(pc); ok { // the primary, if it was written: answer it
+						sawData = true
+						_, _ = pc.Write(peer.Data(f.Session, 1, 2, false, f.Sys, []byte{0x41, 1, 'r'}).Bytes())
+					}
+				})
+			},
+			Monitor: func(e *e3.Env) {
+				if g := e.W.C.Metrics().DataMsgInflightCount(); g < minGauge {
+					minGauge = g
+				}
+			},
+			Finish: func(e *e3.Env) {
+				e.W.Advance(4 * time.Second) // past T3: the call has returned by now
+				m := e.W.C.Metrics()
+				e.Note("err=%v data-on-wire=%v", sendErr, sawData)
+				if minGauge < 0 {
+					e.Violate("inflight:negative", "the in-flight gauge was %d at a scheduling point", minGauge)
+				}
+				if g := m.DataMsgInflightCount(); g != 0 {
+					e.Violate("inflight:stuck", "the send has returned (%v, primary on the wire: %v) but the in-flight gauge is %d", sendErr, sawData, g)
+				}
+				if errors.Is(sendErr, hsms.ErrNotSelectedState) && !sawData {
+					if d := m.DataMsgDropNotSelectedCount(); d != 1 {
+						e.Violate("drop-count", "the send was refused as not selected and nothing reached the wire, but the drop counter is %d", d)
+					}
+					if sc := m.DataMsgSendCount(); sc != 0 {
+						e.Violate("send-vs-wire", "the send was refused and nothing reached the wire but DataMsgSendCount is %d", sc)
+					}
+				}
+			},
+		})
+	}
 	// The reconnecting gauge under overlapping reconnect loops: the link of a Selected active
 	// connection is dropped, the re-dial is accepted and that link is dropped at once (the next
 	// loop can start before the previous one has returned from Start), every later dial is
@@ -190,7 +248,7 @@ func scenarios() []e3.Scenario {
 func TestCheck(t *testing.T) {
 	vfw.Main(t, "C20", func(c *vfw.Ctx) {
 		c.Level("model_checking")
-		c.Rule("E3: every schedule with <= B departures (quick 1, thorough 2) of two overlapping reply-expected senders whose transactions complete together (both replied in one segment / one replied, one cancelled by a timer / replies racing T3) on the real instrumented connection; oracle: in-flight gauge >= 0 at every scheduling point, 0 after every call returned, data-sent counter equals the frames the peer read, DataMsgErrCount equals the number of sends that returned the T3 error (a reply winning or losing the tie with T3 is counted as what the call returned)")
+		c.Rule("E3: every schedule with <= B departures (quick 1, thorough 2) of two overlapping reply-expected senders whose transactions complete together (both replied in one segment / one replied, one cancelled by a timer / replies racing T3) on the real instrumented connection; oracle: in-flight gauge >= 0 at every scheduling point, 0 after every call returned, data-sent counter equals the frames the peer read, DataMsgErrCount equals the number of sends that returned the T3 error (a reply winning or losing the tie with T3 is counted as what the call returned); and of {one reply-expected send, peer Deselect.req}: whichever side of the write boundary the send falls on, the gauge is 0 once it has returned and a refusal is exactly one drop")
 		if c.Replay != nil {
 			var r e3.Replay
 			if err := json.Unmarshal(c.Replay, &r); err != nil || r.Scenario == "" {
